@@ -86,6 +86,8 @@ type Vuln struct {
 	Introduced string `json:"introduced"` // "0" or a version
 	Fixed      string `json:"fixed,omitempty"`
 	Sev        string `json:"sev,omitempty"` // "", "high" (9.8), "low" (1.8)
+	// Introduced2, if set, re-opens the range after Fixed: affected in [Introduced, Fixed) and in [Introduced2, forever).
+	Introduced2 string `json:"introduced2,omitempty"`
 	// Versions is an explicit `versions` list of the affected entry (next to the range); EntrySev puts the severity
 	// on the affected entry instead of the record's top level.
 	Versions []string `json:"versions,omitempty"`
@@ -372,6 +374,9 @@ func (c *Case) OSV() []*osvschema.Vulnerability {
 		ev := []osvschema.Event{{Introduced: v.Introduced}}
 		if v.Fixed != "" {
 			ev = append(ev, osvschema.Event{Fixed: v.Fixed})
+			if v.Introduced2 != "" {
+				ev = append(ev, osvschema.Event{Introduced: v.Introduced2})
+			}
 		}
 		rec := &osvschema.Vulnerability{
 			ID: v.ID,
